@@ -4,35 +4,45 @@
 (*                                                                                  *)
 (*   memento_run_local:  lookup -> (served | compute) -> is_memoized? -> memoize    *)
 (*   memoize          :  BlobStrategy.store (reuse content key | output) ; put_memento*)
-(*   output(key)      :  mkdir ; open object ; write object ; open pointer (creates / *)
-(*                       truncates the .link file) ; write pointer                    *)
+(*   output(key)      :  mkdir ; open object (the file exists, empty) ; write object  *)
+(*                       (data handed to the file object) ; close object (flushed:    *)
+(*                       complete) ; open pointer (creates / truncates the .link      *)
+(*                       file) ; write pointer ; close pointer                        *)
 (* (storage_filesystem.py:79-98,145-172; storage_base.py:366-379,975-981,1420-1438)   *)
 (*                                                                                  *)
 (* Two functions f and g produce the same bytes, i.e. share the content key "c".     *)
 (* Pointer files are "absent", "empty" (created, nothing written), "partial"          *)
-(* (truncated path) or hold a version number.  Objects of versions that were not       *)
-(* completely written are never referenced and are not represented.                    *)
+(* (truncated path) or hold a version number.  Object files exist from their open on   *)
+(* (part: present but not completely written -- a regular file all the same) and are   *)
+(* complete after their close (objs).  A fault may hit a write (write-through view: the *)
+(* file is left partially written) or a close (buffered view: the data never or only    *)
+(* partly reached the file).                                                            *)
 (*                                                                                  *)
 (* FixedReader = FALSE is the pinned commit: exists_nonversioned evaluates               *)
 (* Path(link content).exists(), and Path('') is '.', so an EMPTY pointer "exists";      *)
 (* get_versioned_key then yields version '' (0 here).  FixedReader = TRUE is the         *)
 (* repaired predicate (the pointer target must be a regular file).                       *)
+(* LinkBeforeClose = TRUE is a design variant kept to show what the order of the         *)
+(* protocol is for: the pointer is written while the object file is still open           *)
+(* (seeded changes C08A / C07C); TLC then finds a call that raises.                       *)
 EXTENDS Integers, FiniteSets, TLC
 
 CONSTANTS Fns,            \* {"f", "g"}
           MaxCalls, MaxFaults, MaxForgets,
-          FixedReader
+          FixedReader, LinkBeforeClose
 
 VARIABLES ptr,     \* pointer files: key -> ABSENT | EMPTY | PARTIAL | version (positive)
           objs,    \* complete objects: key -> set of versions
+          part,    \* object files that exist but were not completely written: key -> set of versions
           mck,     \* memento contents: <<fn, version>> -> content-key version recorded in it
           nextVer,
           pc, cur, ck, nv,       \* the running call: program counter, function, content key version, version being written
           faulted,               \* a fault was injected into the running call
+          raised,                \* some call raised an error to its caller
           exec, clean, ncalls, nfaults, nforgets,
           last                   \* label of the last completed call: [fn, served, faulted] (for replay / monitor)
 
-vars == <<ptr, objs, mck, nextVer, pc, cur, ck, nv, faulted, exec, clean, ncalls, nfaults, nforgets, last>>
+vars == <<ptr, objs, part, mck, nextVer, pc, cur, ck, nv, faulted, raised, exec, clean, ncalls, nfaults, nforgets, last>>
 
 Keys == {"c"} \cup Fns                       \* "c": the shared content key; fn: its memento key
 ABSENT == 0
@@ -41,52 +51,63 @@ PARTIAL == -2     \* truncated path
 IsVer(x) == x > 0
 NoneV == 0                                   \* bogus / absent version
 
-\* exists_nonversioned as the code evaluates it
+\* exists_nonversioned as the code evaluates it: the pointer names a regular file (complete or not)
 PtrExists(k) ==
     CASE ptr[k] = ABSENT  -> FALSE
       [] ptr[k] = EMPTY   -> ~FixedReader          \* Path('') == '.' exists
       [] ptr[k] = PARTIAL -> FALSE
-      [] OTHER              -> ptr[k] \in objs[k]
+      [] OTHER              -> ptr[k] \in objs[k] \cup part[k]
 \* get_versioned_key: parent directory name of the path in the pointer
 VerOf(k) == IF IsVer(ptr[k]) THEN ptr[k] ELSE NoneV
-\* get_mementos: read through the pointer (any OSError -> None)
-MementoCk(fn) == IF IsVer(ptr[fn]) /\ ptr[fn] \in objs[fn] THEN mck[<<fn, ptr[fn]>>] ELSE -1    \* -1: no memento
+\* get_mementos: read through the pointer; an OSError means "no memento", a memento file that is not complete JSON
+\* raises a decoding error that is not caught
+MementoState(fn) == IF ~IsVer(ptr[fn]) THEN "none"
+                    ELSE IF ptr[fn] \in objs[fn] THEN "ok"
+                    ELSE IF ptr[fn] \in part[fn] THEN "corrupt" ELSE "none"
+MementoCk(fn) == IF MementoState(fn) = "ok" THEN mck[<<fn, ptr[fn]>>] ELSE -1    \* -1: no memento
 Readable(ckv) == ckv # NoneV /\ ckv \in objs["c"]
+Truncated(ckv) == ckv # NoneV /\ ckv \in part["c"]         \* unpickling fails: not an OSError
 
 Init ==
     /\ ptr = [k \in Keys |-> ABSENT]
     /\ objs = [k \in Keys |-> {}]
+    /\ part = [k \in Keys |-> {}]
     /\ mck = [x \in Fns \X (1..(2 * MaxCalls + 2)) |-> NoneV]
     /\ nextVer = 1
-    /\ pc = "idle" /\ cur = "none" /\ ck = NoneV /\ nv = NoneV /\ faulted = FALSE
+    /\ pc = "idle" /\ cur = "none" /\ ck = NoneV /\ nv = NoneV /\ faulted = FALSE /\ raised = FALSE
     /\ exec = [f \in Fns |-> 0] /\ clean = {} /\ ncalls = 0 /\ nfaults = 0 /\ nforgets = 0
     /\ last = [fn |-> "none", served |-> FALSE, faulted |-> FALSE, ran |-> FALSE]
 
-Store == <<ptr, objs, mck, nextVer>>
+Store == <<ptr, objs, part, mck, nextVer>>
 Counters == <<ncalls, nfaults, nforgets>>
 
 Begin(fn) ==
     /\ pc = "idle" /\ ncalls < MaxCalls
     /\ pc' = "lookup" /\ cur' = fn /\ faulted' = FALSE /\ ncalls' = ncalls + 1
-    /\ UNCHANGED <<Store, ck, nv, exec, clean, nfaults, nforgets, last>>
+    /\ UNCHANGED <<Store, ck, nv, raised, exec, clean, nfaults, nforgets, last>>
 
 \* existing memento whose result can be read: served without running the body
 Lookup ==
     /\ pc = "lookup"
-    /\ IF MementoCk(cur) # -1 /\ Readable(MementoCk(cur))
+    /\ IF MementoState(cur) = "corrupt" \/ (MementoCk(cur) # -1 /\ Truncated(MementoCk(cur)))
+       THEN \* the memento (or the result it names) is there but cannot be decoded: the error escapes to the caller
+            /\ raised' = TRUE /\ pc' = "idle" /\ cur' = "none"
+            /\ last' = [fn |-> cur, served |-> FALSE, faulted |-> FALSE, ran |-> FALSE]
+            /\ UNCHANGED <<exec, clean>>
+       ELSE IF MementoCk(cur) # -1 /\ Readable(MementoCk(cur))
        THEN /\ pc' = "idle" /\ cur' = "none"
             /\ last' = [fn |-> cur, served |-> TRUE, faulted |-> FALSE, ran |-> FALSE]
             /\ clean' = clean \cup {cur}
-            /\ UNCHANGED exec
+            /\ UNCHANGED <<exec, raised>>
        ELSE /\ pc' = "ismemo" /\ exec' = [exec EXCEPT ![cur] = @ + 1]            \* body runs
-            /\ UNCHANGED <<cur, last, clean>>
+            /\ UNCHANGED <<cur, last, clean, raised>>
     /\ UNCHANGED <<Store, ck, nv, faulted, Counters>>
 
 \* storage.is_memoized guards the write ("memoized elsewhere while we were computing")
 IsMemo ==
     /\ pc = "ismemo"
     /\ pc' = IF PtrExists(cur) THEN "finish" ELSE "data"
-    /\ UNCHANGED <<Store, cur, ck, nv, faulted, exec, clean, Counters, last>>
+    /\ UNCHANGED <<Store, cur, ck, nv, faulted, raised, exec, clean, Counters, last>>
 
 \* BlobStrategy.store: reuse an existing content key or output a new version
 Data ==
@@ -94,40 +115,50 @@ Data ==
     /\ IF PtrExists("c")
        THEN ck' = VerOf("c") /\ pc' = "m_mkdir" /\ nv' = nextVer /\ nextVer' = nextVer + 1
        ELSE ck' = nextVer /\ nv' = nextVer /\ nextVer' = nextVer + 1 /\ pc' = "d_mkdir"
-    /\ UNCHANGED <<ptr, objs, mck, cur, faulted, exec, clean, Counters, last>>
+    /\ UNCHANGED <<ptr, objs, part, mck, cur, faulted, raised, exec, clean, Counters, last>>
 
 Goto(from, to) == pc = from /\ pc' = to
-Quiet == UNCHANGED <<cur, ck, nv, faulted, exec, clean, Counters, last, nextVer>>
+Quiet == UNCHANGED <<cur, ck, nv, faulted, raised, exec, clean, Counters, last, nextVer>>
 
-DMkdir    == Goto("d_mkdir", "d_openobj")   /\ Quiet /\ UNCHANGED <<ptr, objs, mck>>
-DOpenObj  == Goto("d_openobj", "d_writeobj") /\ Quiet /\ UNCHANGED <<ptr, objs, mck>>
-DWriteObj == Goto("d_writeobj", "d_openptr") /\ Quiet /\ objs' = [objs EXCEPT !["c"] = @ \cup {nv}] /\ UNCHANGED <<ptr, mck>>
-DOpenPtr  == Goto("d_openptr", "d_writeptr") /\ Quiet /\ ptr' = [ptr EXCEPT !["c"] = EMPTY] /\ UNCHANGED <<objs, mck>>
-DWritePtr == /\ pc = "d_writeptr" /\ pc' = "m_mkdir"
-             /\ ptr' = [ptr EXCEPT !["c"] = nv]
+\* the data object: ... open, write, close, then the pointer -- or, in the LinkBeforeClose variant, the pointer before the close
+DMkdir    == Goto("d_mkdir", "d_openobj")   /\ Quiet /\ UNCHANGED <<ptr, objs, part, mck>>
+DOpenObj  == Goto("d_openobj", "d_writeobj") /\ Quiet /\ part' = [part EXCEPT !["c"] = @ \cup {nv}] /\ UNCHANGED <<ptr, objs, mck>>
+DWriteObj == Goto("d_writeobj", IF LinkBeforeClose THEN "d_openptr" ELSE "d_closeobj") /\ Quiet /\ UNCHANGED <<ptr, objs, part, mck>>
+DCloseObj == /\ pc = "d_closeobj" /\ Quiet
+             /\ objs' = [objs EXCEPT !["c"] = @ \cup {nv}] /\ part' = [part EXCEPT !["c"] = @ \ {nv}] /\ UNCHANGED <<ptr, mck>>
+             /\ pc' = IF LinkBeforeClose THEN "d_done" ELSE "d_openptr"
+DOpenPtr  == Goto("d_openptr", "d_writeptr") /\ Quiet /\ ptr' = [ptr EXCEPT !["c"] = EMPTY] /\ UNCHANGED <<objs, part, mck>>
+DWritePtr == Goto("d_writeptr", "d_closeptr") /\ Quiet /\ UNCHANGED <<ptr, objs, part, mck>>
+DClosePtr == /\ pc = "d_closeptr" /\ Quiet /\ ptr' = [ptr EXCEPT !["c"] = nv] /\ UNCHANGED <<objs, part, mck>>
+             /\ pc' = IF LinkBeforeClose THEN "d_closeobj" ELSE "d_done"
+DDone     == /\ pc = "d_done" /\ pc' = "m_mkdir"
              /\ nv' = nextVer /\ nextVer' = nextVer + 1          \* uuid of the memento object
-             /\ UNCHANGED <<objs, mck, cur, ck, faulted, exec, clean, Counters, last>>
+             /\ UNCHANGED <<ptr, objs, part, mck, cur, ck, faulted, raised, exec, clean, Counters, last>>
 
-MMkdir    == Goto("m_mkdir", "m_openobj")   /\ Quiet /\ UNCHANGED <<ptr, objs, mck>>
-MOpenObj  == Goto("m_openobj", "m_writeobj") /\ Quiet /\ UNCHANGED <<ptr, objs, mck>>
-MWriteObj == Goto("m_writeobj", "m_openptr") /\ Quiet
-             /\ objs' = [objs EXCEPT ![cur] = @ \cup {nv}] /\ mck' = [mck EXCEPT ![<<cur, nv>>] = ck] /\ UNCHANGED ptr
-MOpenPtr  == Goto("m_openptr", "m_writeptr") /\ Quiet /\ ptr' = [ptr EXCEPT ![cur] = EMPTY] /\ UNCHANGED <<objs, mck>>
-MWritePtr == Goto("m_writeptr", "finish")    /\ Quiet /\ ptr' = [ptr EXCEPT ![cur] = nv] /\ UNCHANGED <<objs, mck>>
+MMkdir    == Goto("m_mkdir", "m_openobj")   /\ Quiet /\ UNCHANGED <<ptr, objs, part, mck>>
+MOpenObj  == Goto("m_openobj", "m_writeobj") /\ Quiet /\ part' = [part EXCEPT ![cur] = @ \cup {nv}] /\ UNCHANGED <<ptr, objs, mck>>
+MWriteObj == Goto("m_writeobj", "m_closeobj") /\ Quiet /\ UNCHANGED <<ptr, objs, part, mck>>
+MCloseObj == Goto("m_closeobj", "m_openptr") /\ Quiet
+             /\ objs' = [objs EXCEPT ![cur] = @ \cup {nv}] /\ part' = [part EXCEPT ![cur] = @ \ {nv}]
+             /\ mck' = [mck EXCEPT ![<<cur, nv>>] = ck] /\ UNCHANGED ptr
+MOpenPtr  == Goto("m_openptr", "m_writeptr") /\ Quiet /\ ptr' = [ptr EXCEPT ![cur] = EMPTY] /\ UNCHANGED <<objs, part, mck>>
+MWritePtr == Goto("m_writeptr", "m_closeptr") /\ Quiet /\ UNCHANGED <<ptr, objs, part, mck>>
+MClosePtr == Goto("m_closeptr", "finish")    /\ Quiet /\ ptr' = [ptr EXCEPT ![cur] = nv] /\ UNCHANGED <<objs, part, mck>>
 
 Finish ==
     /\ pc = "finish"
     /\ pc' = "idle" /\ cur' = "none"
     /\ last' = [fn |-> cur, served |-> FALSE, faulted |-> faulted, ran |-> TRUE]
     /\ clean' = IF faulted THEN clean \ {cur} ELSE clean \cup {cur}
-    /\ UNCHANGED <<Store, ck, nv, faulted, exec, Counters>>
+    /\ UNCHANGED <<Store, ck, nv, faulted, raised, exec, Counters>>
 
-WritePcs == {"d_mkdir", "d_openobj", "d_writeobj", "d_openptr", "d_writeptr",
-             "m_mkdir", "m_openobj", "m_writeobj", "m_openptr", "m_writeptr"}
-PtrWrite(p) == p \in {"d_writeptr", "m_writeptr"}
-PtrKey == IF pc = "d_writeptr" THEN "c" ELSE cur
+WritePcs == {"d_mkdir", "d_openobj", "d_writeobj", "d_closeobj", "d_openptr", "d_writeptr", "d_closeptr",
+             "m_mkdir", "m_openobj", "m_writeobj", "m_closeobj", "m_openptr", "m_writeptr", "m_closeptr"}
+\* operations that move the bytes of a pointer file (write-through view: the write; buffered view: the close)
+PtrWrite(p) == p \in {"d_writeptr", "d_closeptr", "m_writeptr", "m_closeptr"}
+PtrKey == IF pc \in {"d_writeptr", "d_closeptr"} THEN "c" ELSE cur
 
-\* the process dies before the operation at pc (for a pointer write optionally after half of it)
+\* the process dies before the operation at pc (for the bytes of a pointer optionally after a part of them)
 Crash(half) ==
     /\ pc \in WritePcs /\ nfaults < MaxFaults
     /\ half => PtrWrite(pc)
@@ -135,7 +166,7 @@ Crash(half) ==
     /\ pc' = "idle" /\ cur' = "none" /\ nfaults' = nfaults + 1
     /\ clean' = clean \ {cur}
     /\ last' = [fn |-> cur, served |-> FALSE, faulted |-> TRUE, ran |-> FALSE]
-    /\ UNCHANGED <<objs, mck, nextVer, ck, nv, faulted, exec, ncalls, nforgets>>
+    /\ UNCHANGED <<objs, part, mck, nextVer, ck, nv, faulted, raised, exec, ncalls, nforgets>>
 
 \* the operation at pc reports ENOSPC / EFBIG: memoize is abandoned, the call still returns its value
 IoError(half) ==
@@ -143,21 +174,21 @@ IoError(half) ==
     /\ half => PtrWrite(pc)
     /\ ptr' = IF half THEN [ptr EXCEPT ![PtrKey] = PARTIAL] ELSE ptr
     /\ pc' = "finish" /\ faulted' = TRUE /\ nfaults' = nfaults + 1
-    /\ UNCHANGED <<objs, mck, nextVer, cur, ck, nv, exec, clean, ncalls, nforgets, last>>
+    /\ UNCHANGED <<objs, part, mck, nextVer, cur, ck, nv, raised, exec, clean, ncalls, nforgets, last>>
 
 \* forget_call(fn): pointer and all versions of the memento removed (no fault injected here)
 Forget(fn) ==
     /\ pc = "idle" /\ nforgets < MaxForgets
-    /\ ptr' = [ptr EXCEPT ![fn] = ABSENT] /\ objs' = [objs EXCEPT ![fn] = {}]
+    /\ ptr' = [ptr EXCEPT ![fn] = ABSENT] /\ objs' = [objs EXCEPT ![fn] = {}] /\ part' = [part EXCEPT ![fn] = {}]
     /\ clean' = clean \ {fn} /\ nforgets' = nforgets + 1
     /\ last' = [fn |-> fn, served |-> FALSE, faulted |-> FALSE, ran |-> FALSE]
-    /\ UNCHANGED <<mck, nextVer, pc, cur, ck, nv, faulted, exec, ncalls, nfaults>>
+    /\ UNCHANGED <<mck, nextVer, pc, cur, ck, nv, faulted, raised, exec, ncalls, nfaults>>
 
 Next ==
     \/ \E fn \in Fns : Begin(fn) \/ Forget(fn)
     \/ Lookup \/ IsMemo \/ Data
-    \/ DMkdir \/ DOpenObj \/ DWriteObj \/ DOpenPtr \/ DWritePtr
-    \/ MMkdir \/ MOpenObj \/ MWriteObj \/ MOpenPtr \/ MWritePtr
+    \/ DMkdir \/ DOpenObj \/ DWriteObj \/ DCloseObj \/ DOpenPtr \/ DWritePtr \/ DClosePtr \/ DDone
+    \/ MMkdir \/ MOpenObj \/ MWriteObj \/ MCloseObj \/ MOpenPtr \/ MWritePtr \/ MClosePtr
     \/ Finish
     \/ \E h \in BOOLEAN : Crash(h) \/ IoError(h)
 
@@ -166,10 +197,9 @@ Spec == Init /\ [][Next]_vars
 -----------------------------------------------------------------------------
 (* CrashSafe (C08): once a call of fn has completed with no fault injected since it  *)
 (* started, the next call of fn is served from the store; i.e. a call of a clean fn   *)
-(* never runs its body.  (Correct value / no exception hold by construction of the    *)
-(* read path in this model: every read failure is an OSError that falls back to       *)
-(* recomputation; the conformance harness checks that on the real code.)              *)
+(* never runs its body; and no call ever raises.                                       *)
 Recovers == (pc = "ismemo") => cur \notin clean
+NeverRaises == ~raised
 \* a pointer that holds a version always points to a completely written object
 PointerImpliesObject == \A k \in Keys : IsVer(ptr[k]) => ptr[k] \in objs[k]
 \* a readable memento never records a bogus content key
